@@ -1086,6 +1086,38 @@ func (c *Ctx) expandPredicate(e ast.Expr) ast.Expr {
 	if b, ok := info.TypeOf(ret).Underlying().(*types.Basic); !ok || b.Info()&types.IsBoolean == 0 {
 		return e
 	}
+	return c.expandSimpleCall(e)
+}
+
+// expandSimpleCall: a call of a declared function or method whose body is a single `return <expr>`
+// is read as that expression with the arguments (and the receiver) in place of the parameters.
+func (c *Ctx) expandSimpleCall(e ast.Expr) ast.Expr {
+	info := c.m.Info
+	call, ok := ast.Unparen(e).(*ast.CallExpr)
+	if !ok || isConversion(info, call) {
+		return e
+	}
+	cu := c.m.calleeUnit(call)
+	if cu == nil || cu.Lit != nil || cu.Decl == nil || cu.Body == nil {
+		return e
+	}
+	ret := simpleReturn(cu)
+	if ret == nil {
+		return e
+	}
+	var recvVar *types.Var
+	var recvArg ast.Expr
+	if cu.Decl.Recv != nil {
+		if len(cu.Decl.Recv.List) != 1 || len(cu.Decl.Recv.List[0].Names) != 1 {
+			return e
+		}
+		recvVar, _ = info.Defs[cu.Decl.Recv.List[0].Names[0]].(*types.Var)
+		sel, ok := ast.Unparen(call.Fun).(*ast.SelectorExpr)
+		if !ok || recvVar == nil {
+			return e
+		}
+		recvArg = sel.X
+	}
 	var params []*types.Var
 	for _, f := range cu.Decl.Type.Params.List {
 		for _, nm := range f.Names {
@@ -1102,6 +1134,9 @@ func (c *Ctx) expandPredicate(e ast.Expr) ast.Expr {
 	sp := &specialiser{c: c, info: info, flags: map[*types.Var]bool{}, subst: map[*types.Var]ast.Expr{}, closures: map[*types.Var]*simpleClosure{}, scope: cu.Body, phase: 2}
 	for i, p := range params {
 		sp.subst[p] = parenIfBinary(sp, call.Args[i])
+	}
+	if recvVar != nil {
+		sp.subst[recvVar] = parenIfBinary(sp, recvArg)
 	}
 	return sp.expr(ret)
 }
